@@ -121,3 +121,89 @@ Theorem C02_logicsim_drivers_source_is_model_partial :
          KV.Proofs.LogicSimDriversProofs.reg_exec body (KV.Proofs.LogicSimDriversProofs.opdN 2 a b c d) So0 = firstn 2 (code_bits (spec_prim p a b c d)) /\
          is4 (spec_prim p a b c d) = true).
 Proof. exact (conj KV.Proofs.LogicSimDriversProofs.chain8_branch KV.Proofs.LogicSimDriversProofs.chain4_branch). Qed.
+
+(** ---- the register view LIFTED to the list memory and folded over the op list (Proofs/LogicSimLoop8.v), m == 8, no callback:
+    [ops_sep_b so] (decidable; evaluated for every generated circuit by the check): c_locs[tmp_idx] <> c_locs[tmp2_idx], and for every op row
+    the location of o0 differs from both and all three differ from the locations of i0..i3 -- what the memory map guarantees.
+    [agree8 lt0 lt1 M m]: the plane memory M shows the model memory m (three planes per location = code_bits) at every location except the
+    two scratch locations.  Then the translated loop of LogicSim.c_prop (pinned skeleton, t0 / t1 read from c_locs) over the op rows of ANY
+    SimOps result IS c_prop of the compared model with sem8 = the documented operator composition, outside the scratch locations.
+    That ops_sep_b holds for every build() result (tmp / tmp2 allocated apart from every signal, an output never placed on a location one of
+    its own operands still occupies) is derived from the allocator invariant further below (C02_logicsim_separation_build) and is also
+    evaluated per generated circuit; m == 4 (needs the 4-valued sub-domain invariant) and the callback copy are not lifted. *)
+From KV Require Proofs.LogicSimLoop8 Proofs.LogicSimLoop8Example.
+Module LS8 := KV.Proofs.LogicSimLoop8.
+
+(* one iteration: the statements of the selected branch executed on the LIST memory = the model's step outside the scratch locations *)
+Theorem C02_logicsim_iteration_source_is_model : forall so lt0 lt1, lt0 <> lt1 -> forall o m M,
+  LS8.agree8 lt0 lt1 M m -> KV.Proofs.LogicSimGlue.locs_ok so (List.length m) -> (lt0 < List.length m)%nat -> (lt1 < List.length m)%nat ->
+  LS8.op_sep_b so lt0 lt1 o = true ->
+  LS8.agree8 lt0 lt1
+    (match chain_find (l_chain loop_cprop8) (field (l_hdr loop_cprop8) (KV.Proofs.LogicSimDriversProofs.row_of o) is_hop) with
+     | Some body => fold_left (exec_stmt 3 (post_of loop_cprop8 (KV.Model.SimOps.so_locs so) (Z.of_nat lt0) (Z.of_nat lt1)
+                                                    (KV.Proofs.LogicSimDriversProofs.row_of o))) body M
+     | None => M
+     end)
+    (KV.Model.LogicSimModel.prop1 Zero KV.Model.LogicSimModel.sem8 so m o).
+Proof. exact LS8.body8_model. Qed.
+
+Theorem C02_logicsim_loop_source_is_model : forall so m M, LS8.ops_sep_b so = true -> KV.Proofs.LogicSimGlue.locs_ok so (List.length m) ->
+  match KV.Model.SimOpsCert.so_loc so (KV.Model.SimOps.so_nlines so + 1), KV.Model.SimOpsCert.so_loc so (KV.Model.SimOps.so_nlines so + 2) with
+  | Some lt0, Some lt1 =>
+      LS8.agree8 lt0 lt1 M m ->
+      LS8.agree8 lt0 lt1
+        (fst (c_prop_src loop_prop_cpu loop_cprop2_cb loop_cprop4 loop_cprop8 8 (KV.Model.SimOps.so_locs so) (KV.Model.SimOps.so_nlines so)
+                (Z.of_nat (KV.Model.SimOps.so_nlines so + 1)) (Z.of_nat (KV.Model.SimOps.so_nlines so + 2)) None
+                (map KV.Proofs.LogicSimDriversProofs.row_of (KV.Model.SimOps.so_ops so)) M))
+        (KV.Model.LogicSimModel.c_prop Zero KV.Model.LogicSimModel.sem8 so m)
+  | _, _ => False
+  end.
+Proof. exact LS8.cprop8_source_is_model. Qed.
+
+Theorem C02_logicsim_loop_source_nonvacuous : exists so lt0 lt1,
+  KV.Model.SimOps.build KV.Proofs.ReuseProofs.ReuseExample.exR (repeat 1%N 10) 1%N true true = Some so /\ LS8.ops_sep_b so = true /\
+  KV.Proofs.LogicSimGlue.locs_ok so (List.length KV.Proofs.LogicSimLoop8Example.exM8) /\
+  KV.Model.SimOpsCert.so_loc so (KV.Model.SimOps.so_nlines so + 1) = Some lt0 /\ KV.Model.SimOpsCert.so_loc so (KV.Model.SimOps.so_nlines so + 2) = Some lt1 /\
+  (2 <= List.length (KV.Model.SimOps.so_ops so))%nat /\
+  LS8.agree8 lt0 lt1
+    (fst (c_prop_src loop_prop_cpu loop_cprop2_cb loop_cprop4 loop_cprop8 8 (KV.Model.SimOps.so_locs so) (KV.Model.SimOps.so_nlines so)
+            (Z.of_nat (KV.Model.SimOps.so_nlines so + 1)) (Z.of_nat (KV.Model.SimOps.so_nlines so + 2)) None
+            (map KV.Proofs.LogicSimDriversProofs.row_of (KV.Model.SimOps.so_ops so)) (map LS8.emb8 KV.Proofs.LogicSimLoop8Example.exM8)))
+    (KV.Model.LogicSimModel.c_prop Zero KV.Model.LogicSimModel.sem8 so KV.Proofs.LogicSimLoop8Example.exM8) /\
+  KV.Model.LogicSimModel.c_prop Zero KV.Model.LogicSimModel.sem8 so KV.Proofs.LogicSimLoop8Example.exM8 <> KV.Proofs.LogicSimLoop8Example.exM8.
+Proof. exact KV.Proofs.LogicSimLoop8Example.loop8_example. Qed.
+
+(** ---- the separation condition IS a theorem for every build() result (all four option combinations) whose ops all write circuit lines
+    (Proofs/LogicSimSepBuild.v; from the allocator invariant: an output is never placed on a location that a still-needed or pinned index
+    occupies, and zero / tmp / tmp2 / the PPI slots are pinned pairwise apart).  A gate WITHOUT output line writes the scratch slot
+    itself (o0 = tmp_idx, sim.py): there c[o0] and c[t0] are the same view and the theorem does not apply -- the only remaining gap for
+    m == 8 without callback; m == 4 and the callback copies are not lifted. *)
+From KV Require Proofs.LogicSimSepBuild.
+Theorem C02_logicsim_separation_build : forall c caps cmin reuse strip so,
+  wf_netlist c -> comb_acyclic c -> (0 < cmin)%N -> KV.Proofs.EndToEnd.gates_known c -> (strip = true -> KV.Proofs.ReuseStrip.forks_ok c) ->
+  (forall o, In o (build_ops c strip) -> KV.Model.SimOps.s_out o < List.length (c_lines c)) ->
+  KV.Model.SimOps.build c caps cmin reuse strip = Some so -> LS8.ops_sep_b so = true.
+Proof. exact KV.Proofs.LogicSimSepBuild.build_ops_sep. Qed.
+
+Theorem C02_logicsim_drivers_source_is_model : forall c caps cmin reuse strip so m M,
+  wf_netlist c -> comb_acyclic c -> (0 < cmin)%N -> KV.Proofs.EndToEnd.gates_known c -> (strip = true -> KV.Proofs.ReuseStrip.forks_ok c) ->
+  (forall o, In o (build_ops c strip) -> KV.Model.SimOps.s_out o < List.length (c_lines c)) ->
+  KV.Model.SimOps.build c caps cmin reuse strip = Some so -> List.length m = N.to_nat (KV.Model.SimOps.so_len so) ->
+  exists lt0 lt1, KV.Model.SimOpsCert.so_loc so (KV.Model.SimOps.so_nlines so + 1) = Some lt0 /\
+    KV.Model.SimOpsCert.so_loc so (KV.Model.SimOps.so_nlines so + 2) = Some lt1 /\ lt0 <> lt1 /\
+    (LS8.agree8 lt0 lt1 M m ->
+     LS8.agree8 lt0 lt1
+       (fst (c_prop_src loop_prop_cpu loop_cprop2_cb loop_cprop4 loop_cprop8 8 (KV.Model.SimOps.so_locs so) (KV.Model.SimOps.so_nlines so)
+               (Z.of_nat (KV.Model.SimOps.so_nlines so + 1)) (Z.of_nat (KV.Model.SimOps.so_nlines so + 2)) None
+               (map KV.Proofs.LogicSimDriversProofs.row_of (KV.Model.SimOps.so_ops so)) M))
+       (KV.Model.LogicSimModel.c_prop Zero KV.Model.LogicSimModel.sem8 so m)).
+Proof. exact KV.Proofs.LogicSimSepBuild.build_cprop8_source_is_model. Qed.
+
+Theorem C02_logicsim_drivers_source_nonvacuous :
+  wf_netlist KV.Proofs.ReuseProofs.ReuseExample.exR /\ comb_acyclic KV.Proofs.ReuseProofs.ReuseExample.exR /\
+  KV.Proofs.EndToEnd.gates_known KV.Proofs.ReuseProofs.ReuseExample.exR /\ KV.Proofs.ReuseStrip.forks_ok KV.Proofs.ReuseProofs.ReuseExample.exR /\
+  (forall o, In o (build_ops KV.Proofs.ReuseProofs.ReuseExample.exR true) ->
+     KV.Model.SimOps.s_out o < List.length (c_lines KV.Proofs.ReuseProofs.ReuseExample.exR)) /\
+  (3 <= List.length (build_ops KV.Proofs.ReuseProofs.ReuseExample.exR true)) /\
+  exists so, KV.Model.SimOps.build KV.Proofs.ReuseProofs.ReuseExample.exR (repeat 1%N 10) 1%N true true = Some so.
+Proof. exact KV.Proofs.LogicSimLoop8Example.build_hyps_example. Qed.
